@@ -1,7 +1,7 @@
 #!/bin/bash
 # usage: confirm_seeded.sh <Cxx> <mN>   — confirms a seeded change in a scratch worktree of /repo HEAD (outside /repo, /verif)
 id=$1; m=$2
-src=/verif/seeded_incoming/$id/$m
+src=/verif/seeded/$id/$m
 wt=/tmp/cf_${id}_${m}
 out=$src/confirm.txt
 rm -rf $wt; git -C /repo worktree add -q --detach $wt HEAD || exit 1
